@@ -65,7 +65,9 @@ def tla(v):
     raise TypeError(v)
 
 
-INVS = ['InvNoOvershoot', 'InvBudget', 'InvSurplus', 'InvNotBoth', 'InvQuiet', 'InvRate']
+INVS = ['InvNoOvershoot', 'InvBudget', 'InvSurplus', 'InvNotBoth', 'InvQuiet', 'InvRate',
+        # extension beyond C20: the bookkeeping published in /app-monitors
+        'InvExtPubSusp', 'InvExtWaitedPublished']
 
 
 def mc_files(tag, apps, counts, ticks, max_steps, outcomes=ALL_OUT, policies=('fifo', 'lifo'),
@@ -212,10 +214,18 @@ def judge(ctx, traces, verdicts):
     violations, nontrivial = [], set()
     flags = collections.Counter()
     drift_samples = []
+    ext_fail = collections.Counter()
+    ext_samples = []
     evaluations = 0
     for v in verdicts:
         t = by_tid[v['tid']]
         fails = set(v['fail'])
+        for f in fails:
+            if f.startswith('ext.'):
+                ext_fail[f] += 1
+                if len(ext_samples) < 2:
+                    ext_samples.append(dict(tid=t['tid'], step=v['i'], clause=f,
+                                            history=t['history'][:v['i']]))
         if 'exc' in fails:
             ctx.skipped += 1
             ctx.notes.append('code raised in %s step %d: %s' % (t['tid'], v['i'],
@@ -248,12 +258,25 @@ def judge(ctx, traces, verdicts):
     if ctx.drift:
         print('DRIFT: %d recorded steps are not what AppMonOps computes (spec needs updating; '
               'not a violation), e.g. %s' % (ctx.drift, json.dumps(drift_samples[:1])))
+    if ext_fail:
+        print('DRIFT: extension beyond C20 (published bookkeeping, /app-monitors): %s lines do not '
+              'conform to AppMon.tla (not a violation), e.g. %s'
+              % (dict(ext_fail), json.dumps(ext_samples[:1])))
+    extensions = dict(appmon_bookkeeping=dict(
+        what='the map reevaluate() returns and stores in the /app-monitors node, and the '
+             'suspend_until masterapi.get_appmonitor shows; AppMon.tla invariants InvExtPubSusp, '
+             'InvExtWaitedPublished (in the model runs above); conformance class',
+        clauses=['ext.appmon.waited', 'ext.appmon.published', 'ext.appmon.suspensions',
+                 'ext.appmon.covered', 'ext.appmon.reader'],
+        lines_judged=evaluations, nonconforming=dict(ext_fail),
+        node_rewritten=flags.get('ext.rewritten', 0), rate_limited=flags.get('ext.waiting', 0),
+        stale_entry_observed=flags.get('ext.stale', 0)))
     return core.conclude(
         ctx, level='model_checking', violations=violations, evaluations=evaluations,
         distinct_nontrivial=len(nontrivial), rule=RULE, samples=samples,
         traces_validated=len(traces), assumptions=ASSUMPTIONS,
         extra=dict(trace_sources=dict(collections.Counter(t['src'] for t in traces)),
-                   exercised=dict(flags), notes=ctx.notes[:10]))
+                   exercised=dict(flags), notes=ctx.notes[:10], extensions=extensions))
 
 
 def run(ctx):
@@ -312,7 +335,16 @@ def selftest(ctx):
     def noisy(lines):            # a call although the monitor is suspended
         lines[11]['calls'].append(dict(app=a, op='create', n=1, o='ok', insts=[]))
 
+    def unpublished(lines):      # the suspension of step 9 is missing from the node
+        lines[9]['post']['pub'] = {}
+        lines[9]['post']['reader'][a] = -1
+
+    def reader_blind(lines):     # get_appmonitor does not show the published until-time
+        lines[9]['post']['reader'][a] = -1
+
     variants = [('more', more, 'C20.noOvershoot'),
+                ('unpublished', unpublished, 'ext.appmon.suspensions'),
+                ('reader_blind', reader_blind, 'ext.appmon.reader'),
                 ('negative', negative, 'C20.budget'), ('wrong_end', wrong_end, 'C20.surplus'),
                 ('both', both, 'C20.notBoth'), ('noisy', noisy, 'C20.quiet')]
     traces = [good] + [variant(n, fn) for n, fn, _ in variants]
